@@ -4370,7 +4370,7 @@ static trait_validate validate_handlers[] = {
 static PyObject *
 _trait_set_validate(trait_object *trait, PyObject *args)
 {
-    PyObject *validate;
+    PyObject *validate, *old_validate;
     PyObject *v1, *v2, *v3;
     Py_ssize_t kind;
 
@@ -4532,9 +4532,12 @@ _trait_set_validate(trait_object *trait, PyObject *args)
 
 done:
     trait->validate = validate_handlers[kind];
+    /* The DECREF of the old validator can call arbitrary code: store the new
+       one first, so that this code never sees a released field. */
+    old_validate = trait->py_validate;
     Py_INCREF(validate);
-    Py_XDECREF(trait->py_validate);
     trait->py_validate = validate;
+    Py_XDECREF(old_validate);
 
     Py_INCREF(Py_None);
     return Py_None;
